@@ -85,7 +85,7 @@ impl<B: Buffer> History<B> {
 //@     }
 //@ }
     pub fn new(buffer: B) -> Self {
-//@ ensures r.wf(), r.entries() == Seq::<Seq<u8>>::empty(), r.nav() is None, r.cap() == buffer.bytes().len(),   // [C10,~C02,C03,~C01]
+//@ ensures r.wf(), r.entries() == Seq::<Seq<u8>>::empty(), r.nav() is None, r.cap() == buffer.bytes().len(),   // [C10,~C02,~C03,~C01]
 //@ proof { assert(buffer.bytes().subrange(0, 0) =~= Seq::<u8>::empty()); }   // [C10]
 //@ let r =
         Self {
@@ -103,7 +103,7 @@ impl<B: Buffer> History<B> {
     pub fn next_newer(&mut self) -> Option<&str> {
 //@ requires old(self).wf(),
 //@ ensures
-//@     final(self).wf(), final(self).entries() == old(self).entries(), final(self).cap() == old(self).cap(),   // [C10,~C02,C03,~C01]
+//@     final(self).wf(), final(self).entries() == old(self).entries(), final(self).cap() == old(self).cap(),   // [C10,~C02,~C03,~C01]
 //@     // C10: Down moves one entry towards the newest and shows it byte for byte; past the newest leaves navigation
 //@     final(self).nav() == nav_newer(old(self).entries().len() as int, old(self).nav()),   // [C10]
 //@     match nav_newer(old(self).entries().len() as int, old(self).nav()) {
@@ -196,7 +196,7 @@ impl<B: Buffer> History<B> {
     pub fn next_older(&mut self) -> Option<&str> {
 //@ requires old(self).wf(),
 //@ ensures
-//@     final(self).wf(), final(self).entries() == old(self).entries(), final(self).cap() == old(self).cap(),   // [C10,~C02,C03,~C01]
+//@     final(self).wf(), final(self).entries() == old(self).entries(), final(self).cap() == old(self).cap(),   // [C10,~C02,~C03,~C01]
 //@     // C10: Up moves to the newest entry first, then one entry older each time, shown byte for byte;
 //@     // past the oldest nothing changes
 //@     match nav_older(old(self).entries().len() as int, old(self).nav()) {
@@ -248,7 +248,7 @@ impl<B: Buffer> History<B> {
     pub fn push(&mut self, text: &str) {
 //@ requires old(self).wf(),
 //@ ensures
-//@     final(self).wf(), final(self).cap() == old(self).cap(),   // [C10,~C02,C03,~C01]
+//@     final(self).wf(), final(self).cap() == old(self).cap(),   // [C10,~C02,~C03,~C01]
 //@     // C10: empty lines, lines with NUL and lines that cannot fit are not recorded and drop nothing
 //@     !recordable(text.spec_bytes(), old(self).cap()) ==>
 //@         final(self).entries() == old(self).entries() && final(self).nav() == old(self).nav(),   // [C10]
